@@ -550,6 +550,7 @@ class Facts:
             with open(p) as f:
                 raw = json.load(f)
             self.crates[c] = raw
+            _uniquify(raw)
             for b in raw["bodies"]:
                 body = Body(b, c)
                 # def paths are unique per crate; codegen bodies are prefixed to avoid collisions
@@ -684,6 +685,70 @@ class Facts:
                         if f and (r.search(f["path"]) or (f.get("res") and r.search(f["res"]))):
                             out.append((Site(b, bi, "T"), "arg", f))
         return out
+
+
+def _uniquify(raw):
+    """Def paths are not unique in crates full of anonymous items (`const _: () = {..}` of macro expansions: every
+    expansion is `_::__INVENTORY::{closure#1}`).  When duplicates exist, rebuild every path from the parent chain
+    with the numeric def index appended to ambiguous segments, and rewrite closure / fn references accordingly."""
+    bodies = raw["bodies"]
+    names = [b["def"] for b in bodies]
+    if len(set(names)) == len(names) or not bodies or "id" not in bodies[0]:
+        return
+    by_id = {b["id"]: b for b in bodies}
+    dup = {n for n in names if names.count(n) > 1}
+    new_name = {}
+
+    def uname(b):
+        if b["id"] in new_name:
+            return new_name[b["id"]]
+        name = b["def"]
+        par = by_id.get(b.get("parent_id", -1))
+        if par is not None and name.startswith(par["def"] + "::"):
+            res = uname(par) + name[len(par["def"]):]
+        else:
+            res = name
+        if name in dup and (par is None or not name.startswith(par["def"] + "::") or uname(par) == par["def"]):
+            # ambiguity starts here
+            if res == name:
+                res = f"{name}#{b['id']}"
+        new_name[b["id"]] = res
+        return res
+
+    for b in bodies:
+        uname(b)
+    # second pass: children of renamed parents that are not bodies themselves cannot be fixed; ensure uniqueness
+    seen = {}
+    for b in bodies:
+        n = new_name[b["id"]]
+        if n in seen:
+            n = f"{n}#{b['id']}"
+            new_name[b["id"]] = n
+        seen[n] = True
+
+    def fix_op(op):
+        if isinstance(op, dict):
+            if op.get("k") == "fn" and op.get("id", -1) in new_name:
+                op["path"] = new_name[op["id"]]
+            for v in op.values():
+                if isinstance(v, (dict, list)):
+                    fix_op(v)
+        elif isinstance(op, list):
+            for v in op:
+                fix_op(v)
+
+    for b in bodies:
+        b["def"] = new_name[b["id"]]
+        par = by_id.get(b.get("parent_id", -1))
+        if par is not None:
+            b["parent"] = new_name[par["id"]]
+        for blk in b["blocks"]:
+            for st in blk["stmts"]:
+                rv = st["rv"]
+                if rv.get("k") == "agg" and rv.get("def_id", -1) in new_name:
+                    rv["def"] = new_name[rv["def_id"]]
+                fix_op(rv)
+            fix_op(blk["term"])
 
 
 class Unverifiable(Exception):
